@@ -189,7 +189,7 @@ pub fn check_case(case: &Case) -> (Vec<Violation>, CaseStats) {
 }
 
 /// Oracle M: live heap at quiescence points following a context line must not grow with input.
-pub fn memory_check(args: &[String], n: usize, seed: u64) -> (Option<Violation>, serde_json::Value) {
+pub fn memory_check(args: &[String], n: usize, seed: u64, long_lines: bool) -> (Option<Violation>, serde_json::Value) {
     let config = match make_config(args) {
         Ok(c) => c,
         Err(e) => return (None, json!({"error": e})),
@@ -208,9 +208,20 @@ pub fn memory_check(args: &[String], n: usize, seed: u64) -> (Option<Violation>,
             for h in 0..per_section.min(reps - produced) {
                 let sec = gen::generate_section(&mut rng, &gp, gen::SectionKind::Modified, s, tok);
                 tok += sec.iter().filter(|l| l.token.is_some()).count();
-                for l in sec {
+                for mut l in sec {
                     if h > 0 && l.kind == LineKind::Meta {
                         continue;
+                    }
+                    if long_lines && matches!(l.kind, LineKind::Context | LineKind::Minus | LineKind::Plus) {
+                        // minified files, data tables, lock files: lines beyond every per-line limit
+                        // (max-syntax-highlighting-length 400, max-line-length 3000 are the defaults)
+                        let pad = if produced % 7 == 0 { 3300 } else { 450 };
+                        let mut t = String::with_capacity(l.text.len() + pad);
+                        t.push_str(&l.text);
+                        while t.len() < pad {
+                            t.push_str(" lorem(ipsum, 42) = dolor;");
+                        }
+                        l.text = t;
                     }
                     lines.push(l);
                 }
@@ -246,13 +257,13 @@ pub fn memory_check(args: &[String], n: usize, seed: u64) -> (Option<Violation>,
     let (h4, l4, q4) = measure(4 * n);
     let growth = h4 - h1;
     let input_growth = (l4 - l1) as isize;
-    let info = json!({"args": args, "hunks_small": n, "hunks_large": 4 * n, "input_bytes_small": l1, "input_bytes_large": l4, "live_heap_small": h1, "live_heap_large": h4, "quiescence_points_large": q4});
+    let info = json!({"args": args, "long_lines": long_lines, "hunks_small": n, "hunks_large": 4 * n, "input_bytes_small": l1, "input_bytes_large": l4, "live_heap_small": h1, "live_heap_large": h4, "quiescence_points_large": q4});
     if growth > input_growth / 2 {
         return (
             Some(Violation::new(
                 "M-memory",
                 "M:heap-grows-with-input",
-                format!("live heap at a quiescence point after an unchanged line grew by {} bytes when the input grew by {} bytes ({} -> {} hunks; args {:?})", growth, input_growth, n, 4 * n, args),
+                format!("live heap at a quiescence point after an unchanged line grew by {} bytes when the input grew by {} bytes ({} -> {} hunks; long lines: {}; args {:?})", growth, input_growth, n, 4 * n, long_lines, args),
             )),
             info,
         );
